@@ -235,6 +235,7 @@ fn v2_body(shape: &'static [u8]) {
     }
     assert!(got == want, "scalar identifier scan differs from the reference");
     cover!(got == s.len(), "whole_input");
+    cover!(got < s.len(), "stopped_early");
 }
 macro_rules! v2 { ($($name: ident => ($sh: expr)),*) => {$(
     harness! { fn $name() unwind(12) { v2_body($sh) } }
